@@ -879,9 +879,12 @@ def read_find(fn):
 
     alias = {}
 
+    def node_names():
+        return ([node[0]] if node[0] else []) + [f'{p_}[{pos}]' for p_ in pre]
+
     def ref(e):
         u = ast.unparse(e)
-        if node[0] and u == node[0]:
+        if u in node_names():
             return '.node'
         if isinstance(e, ast.Name) and e.id in alias:
             return alias[e.id]
@@ -928,9 +931,9 @@ def read_find(fn):
                 node[0] = rest[0].targets[0].id
                 return f'(.ifInRange {prog(rest[1:], k)} {out_branch})'
             # `if not node.type == 'X': …return` followed by the X part (a jump branch in normal form)
-            if node[0] and not st.orelse and body and isinstance(body[-1], ast.Return):
+            if not st.orelse and body and isinstance(body[-1], ast.Return):
                 for ty in ('TERMINAL', 'FUNCTION'):
-                    if t in (f"not {node[0]}.type == '{ty}'", f"{node[0]}.type != '{ty}'"):
+                    if any(t in (f"not {N_}.type == '{ty}'", f"{N_}.type != '{ty}'") for N_ in node_names()):
                         return f"(.ifType {'true' if ty == 'TERMINAL' else 'false'} {prog(rest, k)} {prog(body, k)})"
             kr = prog(rest, k)
             if any(t == f'len({p_}) > {pos}' for p_ in pre) or any(t == f'{pos} < len({p_})' for p_ in pre):
@@ -938,8 +941,9 @@ def read_find(fn):
                         and any(ast.unparse(body[0].value) == f'{p_}[{pos}]' for p_ in pre):
                     node[0] = body[0].targets[0].id
                     return f'(.ifInRange {prog(body[1:], kr)} {prog(list(st.orelse), kr)})'
-                return f'(.unknown {lean_str("in-range branch does not bind the node")})'
-            if node[0] and t in (f"{node[0]}.type == 'TERMINAL'", f"{node[0]}.type == 'FUNCTION'"):
+                # the node is written `pre_order[position]` wherever it is used
+                return f'(.ifInRange {prog(body, kr)} {prog(list(st.orelse), kr)})'
+            if any(t in (f"{N_}.type == 'TERMINAL'", f"{N_}.type == 'FUNCTION'") for N_ in node_names()):
                 return f"(.ifType {'true' if 'TERMINAL' in t else 'false'} {prog(body, kr)} {prog(list(st.orelse), kr)})"
             r = ref(st.test)
             if r is None and isinstance(st.test, ast.Compare) and len(st.test.ops) == 1 and isinstance(st.test.ops[0], ast.IsNot) \
@@ -1044,6 +1048,8 @@ def read_props(fn):
             or (isinstance(st, ast.Assign) and len(st.targets) == 1 and ast.unparse(st.targets[0]) == var
                 and ast.unparse(st.value) in (f'{var} + 1', f'1 + {var}'))
 
+    kid = {}   # local name -> 'left' / 'right' (a read of the current node's child bound to a local)
+
     def cond(e, nd):
         if isinstance(e, ast.BoolOp) and isinstance(e.op, ast.And):
             out = cond(e.values[-1], nd)
@@ -1056,6 +1062,8 @@ def read_props(fn):
             return f'(.not {c})' if c else None
         if isinstance(e, ast.Compare) and len(e.ops) == 1:
             l, r = ast.unparse(e.left), ast.unparse(e.comparators[0])
+            if isinstance(e.left, ast.Name) and e.left.id in kid and nd:
+                l = f'{nd}.{kid[e.left.id]}'
             if r == 'None' and nd and l in (f'{nd}.left', f'{nd}.right'):
                 base = '.hasLeft' if l.endswith('.left') else '.hasRight'
                 if isinstance(e.ops[0], ast.IsNot):
@@ -1067,6 +1075,13 @@ def read_props(fn):
         return None
 
     def stmt(st, nd):
+        if isinstance(st, ast.Assign) and len(st.targets) == 1 and nd:
+            tg, vl = st.targets[0], st.value
+            pairs = list(zip(tg.elts, vl.elts)) if isinstance(tg, ast.Tuple) and isinstance(vl, ast.Tuple) and len(tg.elts) == len(vl.elts) else [(tg, vl)]
+            if all(isinstance(a, ast.Name) and ast.unparse(b) in (f'{nd}.left', f'{nd}.right') and a.id not in role and a.id != nd for a, b in pairs):
+                for a, b in pairs:
+                    kid[a.id] = ast.unparse(b).split('.')[-1]
+                return '.skip'
         for r, con in (('n_nodes', '.incNodes'), ('n_leaves', '.incLeaves'), ('max_depth', '.incMaxDepth')):
             if counter(st, byrole[r]):
                 return con
@@ -1076,6 +1091,8 @@ def read_props(fn):
         if isinstance(st, ast.Expr) and isinstance(st.value, ast.Call) and nxt[0] and nd \
                 and ast.unparse(st.value.func) == f'{nxt[0]}.append' and len(st.value.args) == 1 and not st.value.keywords:
             a = ast.unparse(st.value.args[0])
+            if isinstance(st.value.args[0], ast.Name) and st.value.args[0].id in kid:
+                a = f'{nd}.{kid[st.value.args[0].id]}'
             if a == f'{nd}.left':
                 return '.pushLeft'
             if a == f'{nd}.right':
@@ -1234,6 +1251,25 @@ def read_mutate(fn):
                     and _norm(st.value) == f'{copy_}.find_node({point})' and sub is None:
                 sub, flag = [e.id for e in st.targets[0].elts]
                 F['findsOnCopy'] = True
+            elif isinstance(st, ast.If) and sub and body.startswith('(.unknown "method') and not st.orelse and len(st.body) == 1 \
+                    and isinstance(st.body[0], ast.Return) and _norm(st.test) in (f'not {sub}', f'{sub} is None') \
+                    and _norm(st.body[0]) == f'return {space}.grow({space}.min_depth, {space}.max_depth)':
+                # guard-clause form: no slot -> the freshly grown tree is returned at once; the graft follows
+                rest_ = body_of(fn)[body_of(fn).index(st) + 1:]
+                graft_ = [x for x in rest_ if not isinstance(x, ast.Return)]
+                grow = f'{space}.grow({space}.min_depth, {space}.max_depth)'
+                branch = None
+                if graft_ and isinstance(graft_[0], ast.Assign) and len(graft_[0].targets) == 1 and isinstance(graft_[0].targets[0], ast.Name) \
+                        and _norm(graft_[0].value) == grow:
+                    branch = graft_[0].targets[0].id
+                    F['growsBranch'] = True
+                    graft_ = graft_[1:]
+                body, cond = read_heap_block(graft_, {sub} | ({branch} if branch else set()), {flag})
+                F['cond'] = f'(.isNode {lean_str(sub)})'
+                F['elseGrowsWhole'] = True
+                F['returnsCopy'] = bool(rest_) and isinstance(rest_[-1], ast.Return) and _norm(rest_[-1]) == f'return {copy_}' \
+                    and sum(isinstance(x, ast.Return) for x in rest_) == 1
+                break
             elif isinstance(st, ast.If) and sub and body.startswith('(.unknown "method'):
                 sts = [s for s in st.body if not (isinstance(s, ast.Expr) and isinstance(s.value, ast.Constant))]
                 grow = f'{space}.grow({space}.min_depth, {space}.max_depth)'
